@@ -68,6 +68,15 @@ var c09Specs = []c09Spec{
 	{"j@num,.config", cfgResults(
 		[][2]string{{"j", "10"}, {"k", "z"}}, [][2]string{{"j", "9"}, {"k", "a"}}, [][2]string{{"k", "a"}}, [][2]string{{"j", "1k"}},
 		[][2]string{{"j", "9"}, {"k", "z"}}, [][2]string{{"j", "x"}, {"i", "1"}})},
+	// A group in front of specific fields: the flattened order (.config's keys first) is not the order in which
+	// the fields were created, and keys lacking the later .config keys are shorter than the field set.
+	{".config,.name@alpha,/k@num", []presult{
+		{"W/k=2k", [][3]string{{"i", "l", "f"}, {"j", "m", "f"}}, []string{"u"}}, {"W/k=1Ki", [][3]string{{"i", "l", "f"}}, []string{"u"}},
+		{"S/k=900", [][3]string{{"i", "l", "f"}}, []string{"u"}}, {"W/k=2k", nil, []string{"u"}}, {"S/k=1Ki", nil, []string{"u"}},
+		{"S/k=1000", nil, []string{"u"}}, {"I/k=5", nil, []string{"u"}}}},
+	{".config,k@alpha", cfgResults(
+		[][2]string{{"j", "1"}, {"k", "b"}}, [][2]string{{"k", "a"}}, [][2]string{{"k", "c"}}, [][2]string{{"j", "1"}, {"i", "2"}, {"k", "a"}},
+		nil, [][2]string{{"i", "2"}, {"k", "z"}})},
 	{"/k,.name", []presult{
 		{"B/k=2", nil, []string{"u"}}, {"A/k=1", nil, []string{"u"}}, {"A", nil, []string{"u"}}, {"B/k=1", nil, []string{"u"}}, {"A/k=2", nil, []string{"u"}}}},
 }
